@@ -200,6 +200,7 @@ def run_stream(cfg):
     random.seed(cfg['seeds'][0])
     np.random.seed(cfg['seeds'][1])
     ex = h.pfi() if cfg['cls'] == 'pfi' else h.sage()
+    h.prefill(ex)
     alpha = float(Q(cfg['alpha']))
     nt = False
     labels = [cfg['cls'], h.mode]
